@@ -34,6 +34,10 @@ def configs(tier):
     c.append(("tp=tls,mode=static,part=all", 0))
     c.append(("tp=tls,mode=static,part=all", 0, "asan"))
     TPS = (("tcp", 0), ("btcp", 0), ("tls", 1), ("btls", 1), ("utlstls", 1))
+    # an accepted tcp.connect_timeout (creation map, or while the name is still being resolved) governs the attempt:
+    # silent destination, virtual clock, every order of the resolver's answer and the timers within the bound
+    for tp, tls in TPS:
+        c.append(("tp=%s,mode=ctmo" % tp, 1 if q else 2))
     for tp, tls in TPS:
         # singles with every deviation pattern <= D; ordered pairs of tcp.* sets; pairs over all attributes
         c.append(("tp=%s,mode=hist,depth=1,menu=0x%x" % (tp, 0xfff), (0 if tls else 1) if q else (1 if tls else 2)))
